@@ -470,6 +470,8 @@ fn run_case(seed: u64, idx: u64, tier: Tier, out: &mut CaseOut) {
             p.edge_space = rng.chance(1, 3);
             p.href_controls = rng.chance(1, 3);
             p.nested_pre = rng.chance(1, 3);
+            p.stray_in_list = rng.chance(1, 2);
+            p.empty_lists = rng.chance(1, 3);
             p.odd_hrefs = rng.chance(1, 3);
             p.uni_space_permille = *rng.pick(&[0usize, 0, 100]);
             let doc = gen_doc(&mut rng, &p);
